@@ -13,21 +13,28 @@ open GilVerif GilVerif.FloatSpec GilVerif.Lemmas.C06Float
 /-- the literal 0.0001f -/
 def c4 : ℚ := 13743895 / 137438953472
 
+/-- `max_color` / `min_color` of the three converted channels -/
+def hsvMx (R : FloatSpec) (r g b : ℤ) : ℚ := max (toF R 255 r) (max (toF R 255 g) (toF R 255 b))
+def hsvMn (R : FloatSpec) (r g b : ℤ) : ℚ := min (toF R 255 r) (min (toF R 255 g) (toF R 255 b))
+/-- `diff = max_color - min_color` -/
+def hsvDiff (R : FloatSpec) (r g b : ℤ) : ℚ := R.rnd (hsvMx R r g b - hsvMn R r g b)
+/-- saturation -/
+def hsvSat (R : FloatSpec) (r g b : ℤ) : ℚ :=
+  if hsvMx R r g b < c4 then 0 else R.rnd (hsvDiff R r g b / hsvMx R r g b)
+/-- hue -/
+def hsvHue (R : FloatSpec) (r g b : ℤ) : ℚ :=
+  if hsvSat R r g b < c4 then 0
+  else
+    let tr := toF R 255 r; let tg := toF R 255 g; let tb := toF R 255 b
+    let mx := hsvMx R r g b; let diff := hsvDiff R r g b
+    let h := if |R.rnd (tr - mx)| < c4 then R.rnd (R.rnd (tg - tb) / diff)
+             else if tg ≥ mx then R.rnd (2 + R.rnd (R.rnd (tb - tr) / diff))
+             else R.rnd (4 + R.rnd (R.rnd (tr - tg) / diff))
+    let h := R.rnd (h / 6)
+    if h < 0 then R.rnd (h + 1) else h
+
 /-- default_color_converter_impl<rgb_t, hsv_t> on an rgb8 pixel: (hue, saturation, value) -/
-def rgbToHsvF (R : FloatSpec) (r g b : ℤ) : ℚ × ℚ × ℚ :=
-  let tr := toF R 255 r; let tg := toF R 255 g; let tb := toF R 255 b
-  let mn := min tr (min tg tb); let mx := max tr (max tg tb)
-  let diff := R.rnd (mx - mn)
-  let sat := if mx < c4 then 0 else R.rnd (diff / mx)
-  let hue :=
-    if sat < c4 then 0
-    else
-      let h := if |R.rnd (tr - mx)| < c4 then R.rnd (R.rnd (tg - tb) / diff)
-               else if tg ≥ mx then R.rnd (2 + R.rnd (R.rnd (tb - tr) / diff))
-               else R.rnd (4 + R.rnd (R.rnd (tr - tg) / diff))
-      let h := R.rnd (h / 6)
-      if h < 0 then R.rnd (h + 1) else h
-  (hue, sat, mx)
+def rgbToHsvF (R : FloatSpec) (r g b : ℤ) : ℚ × ℚ × ℚ := (hsvHue R r g b, hsvSat R r g b, hsvMx R r g b)
 
 /-- default_color_converter_impl<hsv_t, rgb_t> into an rgb8 pixel -/
 def hsvToRgbF (R : FloatSpec) (h s v : ℚ) : ℤ × ℤ × ℤ :=
@@ -49,5 +56,58 @@ def hsvRoundTripF (R : FloatSpec) (r g b : ℤ) : ℤ × ℤ × ℤ :=
   hsvToRgbF R (rgbToHsvF R r g b).1 (rgbToHsvF R r g b).2.1 (rgbToHsvF R r g b).2.2
 
 theorem c4_pos : 0 < c4 := by unfold c4; norm_num
+
+/-- value component: the maximum of the three converted channels -/
+theorem rgbToHsvF_val (R : FloatSpec) (r g b : ℤ) :
+    (rgbToHsvF R r g b).2.2 = max (toF R 255 r) (max (toF R 255 g) (toF R 255 b)) := rfl
+
+/-- saturation component -/
+theorem rgbToHsvF_sat (R : FloatSpec) (r g b : ℤ) :
+    (rgbToHsvF R r g b).2.1 =
+      if max (toF R 255 r) (max (toF R 255 g) (toF R 255 b)) < c4 then 0
+      else R.rnd (R.rnd (max (toF R 255 r) (max (toF R 255 g) (toF R 255 b)) - min (toF R 255 r) (min (toF R 255 g) (toF R 255 b)))
+                  / max (toF R 255 r) (max (toF R 255 g) (toF R 255 b))) := by
+  show hsvSat R r g b = _
+  unfold hsvSat hsvDiff hsvMx hsvMn; rfl
+
+/-- numeric core of the saturation error: X ≈ M/255 (± eps), D ≈ (M-m)/255 (± 3 eps)  ⇒  |D/X - (M-m)/M| ≤ 1/16000.
+    (D*M - d*X = (D - d/255)*M - d*(X - M/255) is at most 4 eps M in magnitude, X*M ≥ M/256.) -/
+theorem sat_core (ε X D Mq mq : ℚ) (hε0 : 0 ≤ ε) (hε : ε ≤ 1 / 16777216) (hM1 : 1 ≤ Mq) (hm0 : 0 ≤ mq) (hd : 1 ≤ Mq - mq)
+    (hX1 : Mq / 255 - ε ≤ X) (hX2 : X ≤ Mq / 255 + ε) (hD1 : (Mq - mq) / 255 - 3 * ε ≤ D) (hD2 : D ≤ (Mq - mq) / 255 + 3 * ε) :
+    |D / X - (Mq - mq) / Mq| ≤ 1 / 16000 := by
+  have hMpos : 0 < Mq := by linarith
+  have hXlo : Mq / 256 ≤ X * Mq := by
+    have h1 : Mq / 255 - ε ≥ 1 / 256 := by
+      have : (1 : ℚ) / 255 ≤ Mq / 255 := div_le_div_of_nonneg_right hM1 (by norm_num)
+      linarith
+    have : (1 / 256 : ℚ) * Mq ≤ X * Mq := mul_le_mul_of_nonneg_right (by linarith) hMpos.le
+    linarith
+  have hXpos : 0 < X := by
+    have : (1 : ℚ) / 255 ≤ Mq / 255 := div_le_div_of_nonneg_right hM1 (by norm_num)
+    linarith
+  have hXM : 0 < X * Mq := mul_pos hXpos hMpos
+  have e : D / X - (Mq - mq) / Mq = (D * Mq - (Mq - mq) * X) / (X * Mq) := by field_simp
+  have e2 : D * Mq - (Mq - mq) * X = (D - (Mq - mq) / 255) * Mq - (Mq - mq) * (X - Mq / 255) := by ring
+  -- the two products
+  have a1 : (D - (Mq - mq) / 255) * Mq ≤ 3 * ε * Mq := mul_le_mul_of_nonneg_right (by linarith) hMpos.le
+  have a2 : -(3 * ε) * Mq ≤ (D - (Mq - mq) / 255) * Mq := mul_le_mul_of_nonneg_right (by linarith) hMpos.le
+  have hd0 : 0 ≤ Mq - mq := by linarith
+  have b1 : (Mq - mq) * (X - Mq / 255) ≤ (Mq - mq) * ε := mul_le_mul_of_nonneg_left (by linarith) hd0
+  have b2 : (Mq - mq) * (-ε) ≤ (Mq - mq) * (X - Mq / 255) := mul_le_mul_of_nonneg_left (by linarith) hd0
+  have c1 : (Mq - mq) * ε ≤ Mq * ε := mul_le_mul_of_nonneg_right (by linarith) hε0
+  have hεM : ε * Mq ≤ Mq / 16777216 := by
+    have := mul_le_mul_of_nonneg_right hε hMpos.le; linarith
+  rw [e, abs_le]
+  constructor
+  · rw [le_div_iff₀ hXM]; rw [e2]; nlinarith
+  · rw [div_le_iff₀ hXM]; rw [e2]; nlinarith
+
+/-- the round trip is the identity on a list of pixels (Boolean form, for kernel evaluation) -/
+def roundTripAll (R : FloatSpec) (ps : List (ℤ × ℤ × ℤ)) : Bool :=
+  ps.all (fun p => decide (hsvRoundTripF R p.1 p.2.1 p.2.2 = p))
+
+/-- the grid {0, 51, ..., 255}^3 -/
+def grid6 : List (ℤ × ℤ × ℤ) :=
+  [0, 51, 102, 153, 204, 255].flatMap (fun r => [0, 51, 102, 153, 204, 255].flatMap (fun g => [0, 51, 102, 153, 204, 255].map (fun b => (r, g, b))))
 
 end GilVerif.Lemmas.C18Float
